@@ -91,6 +91,7 @@ class SymEnv:
         if a is None or b is None:
             self.fact(name, a is None and b is None, note=note or '%r vs %r' % (a, b))
             return
+        a, b = (sym.SymNaN if isinstance(x, (float, complex, np.floating, np.complexfloating)) and x != x else x for x in (a, b))
         if a is sym.SymNaN or b is sym.SymNaN:
             self.fact(name, a is b, note=note)
             return
